@@ -63,7 +63,7 @@ func genC12(r *core.Rand, run int) *MuxScenario {
 				case 5:
 					op = RegOp{Kind: "regconn", Target: tgt, Adv: [][]string{{tsvc}, {svcFiles}, {tsvc, svcMessaging}, {}, {svcFiles, svcMessaging}, {tsvc, svcFiles, svcMessaging}, {svcMessaging, svcFiles}}[r.Intn(7)]}
 				case 6:
-					op = RegOp{Kind: "regconn", Target: tgt, Fail: r.PickS("refl:0", "refl:1", "refl:2", "refl:3")}
+					op = RegOp{Kind: "regconn", Target: tgt, Fail: r.PickS("refl:0", "refl:1", "refl:2", "refl:3", "refl:2c", "refl:3c")}
 				case 7:
 					op = RegOp{Kind: "regconn", Target: tgt, Fail: "cancel"}
 				}
@@ -242,7 +242,7 @@ func oracleRegistryConcurrent(prop string, mr *muxRun, res *RunResult) *Violatio
 			case "drop":
 				add(linInput{Kind: "drop", Op: rr.Op, Label: label}, linOutput{Dropped: rr.Dropped}, rr.Invoke, rr.Return)
 			default:
-				mustFail := rr.Op.Fail == "cancel" || rr.Op.Fail == "dead" || rr.Op.Fail == "refl:0" || rr.Op.Fail == "refl:1" && len(rr.AdvAt) > 0
+				mustFail := rr.Op.Fail == "cancel" || rr.Op.Fail == "dead" || strings.HasPrefix(rr.Op.Fail, "refl:") && (reflJ(rr.Op.Fail) == "0" || reflJ(rr.Op.Fail) == "1" && len(rr.AdvAt) > 0)
 				mayFail := strings.HasPrefix(rr.Op.Fail, "refl:") && !mustFail
 				if rr.Err != nil {
 					cnt[cFailedRegistration]++
